@@ -34,7 +34,8 @@ def plan(tier):
 
 
 def gen_case(rng, tier, i):
-    cls = rng.choice(["Tally", "EventBasedTally", "EventBasedTally+sub", "EventBasedTally+sub", "Counter", "EventBasedCounter+sub"])
+    cls = rng.choice(["Tally", "EventBasedTally", "EventBasedTally+sub", "EventBasedTally+sub", "Counter", "EventBasedCounter+sub",
+                      "EventBasedTally+resub", "EventBasedCounter+resub"])
     entry = rng.choice(["register", "notify"]) if cls.startswith("EventBased") else "register"
     n = rng.choice([0, 1, 2, 3, 4, 5, 5, 10, 10, 50, 50, 300] + ([3000] if rng.random() < 0.08 else [12]))
     klass = rng.choice(["int", "mixed", "offset", "equal", "two", "near"])
@@ -61,7 +62,7 @@ def gen_case(rng, tier, i):
     for v in vals:
         r = rng.random()
         if r < 0.04:
-            ops.append(["bad", rng.choice(["nan", "str", "none", "float_for_counter", "numstr", "decimal"])])
+            ops.append(["bad", rng.choice(["nan", "str", "none", "float_for_counter", "numstr", "decimal", "hugeint"])])
         elif r < 0.055:
             ops.append(["init"])
         ops.append(["obs", v])
@@ -138,6 +139,18 @@ def run_case(case, ctx):
         for et in (StatEvents.OBSERVATION_ADDED_EVENT, StatEvents.N_EVENT, StatEvents.MEAN_EVENT, StatEvents.COUNT_EVENT,
                    StatEvents.POPULATION_SKEWNESS_EVENT, StatEvents.SAMPLE_KURTOSIS_EVENT, StatEvents.INITIALIZED_EVENT):
             t.add_listener(et, sub)
+    resub = None
+    if case["cls"].endswith("+resub"):
+        # a subscriber of INITIALIZED that registers a baseline observation from inside the notification (re-entrant):
+        # made after the reset, so it counts
+        class Resub(EventListener):
+            active = False
+
+            def notify(self, event):
+                if self.active:
+                    t.register(3)
+        resub = Resub()
+        t.add_listener(StatEvents.INITIALIZED_EVENT, resub)
     ex = ExactTally()
     csum, cn = 0, 0
     nobs = rej = inits = 0
@@ -162,19 +175,32 @@ def run_case(case, ctx):
                 ex.add(v)
             nobs += 1
         elif op[0] == "init":
-            t.initialize()
+            if resub is not None:
+                resub.active = True
+                ctx.count("re-entrant_baselines_from_INITIALIZED")
+            try:
+                t.initialize()
+            except Exception as e:
+                ctx.viol(f"initialize-raises:{type(e).__name__}", {**where, "exc": repr(e)})
+                return
             ex.reset()
             csum, cn = 0, 0
+            if resub is not None:
+                resub.active = False
+                if counter:
+                    csum, cn = 3, 1
+                else:
+                    ex.add(3)
             inits += 1
         elif op[0] == "q":
             pass
         else:
             kind = op[1]
-            if kind == "float_for_counter" and not counter:
-                continue
+            if (kind == "float_for_counter" and not counter) or (kind == "hugeint" and counter):
+                continue        # (an int of any size is a valid counter increment; one beyond the float range is no tally observation)
             import decimal
             bad = {"nan": math.nan, "str": "x", "none": None, "float_for_counter": 2.5, "numstr": "2.5" if not counter else "3",
-                   "decimal": decimal.Decimal("1.5") if not counter else decimal.Decimal(2)}[kind]
+                   "decimal": decimal.Decimal("1.5") if not counter else decimal.Decimal(2), "hugeint": 10 ** 400}[kind]
             if counter and kind == "nan":
                 bad = math.nan      # a float: must be refused by the counter as a non-int
             before = fx(list(_safe_getters(ctx, t, counter, where).values()))
